@@ -83,6 +83,28 @@ def check(ctx):
     script.append("R")
     for (f, x) in limb_cases():
         script.append("Pd %s n n %s" % (fmt([ord(c) for c in f]), fmt(dbits(x)))); n += 1
+    # the domain of the judge self-test (PrintfFloatMC: small dyadic values x conversions x precisions x flag sets x widths),
+    # executed on the implementation: a tenth of it in the quick tier, all of it in the thorough tier
+    cfgname = "PrintfFloatMCthorough.cfg" if ctx.thorough else "PrintfFloatMC.cfg"
+    cfgtxt = open(os.path.join(core.SPECS, cfgname)).read()
+    def cset(name):
+        import re
+        return [int(x) for x in re.search(name + r"\s*=\s*\{([^}]*)\}", cfgtxt).group(1).split(",")]
+    mc_flagsets = ["", "-", "0", "+", " ", "#", "-0", "#+", " 0#"]          # FlagSets of PrintfFloatMC.tla
+    script.append("R"); k_ = 0
+    for m in cset("Ms"):
+        for k in cset("Ks"):
+            for neg in (0, 1):
+                x = (-1.0 if neg else 1.0) * m / 2.0 ** k
+                for cv in "fegEG":
+                    for p in cset("Precs"):
+                        for fl in mc_flagsets:
+                            for w in cset("Widths"):
+                                k_ += 1
+                                if not ctx.thorough and k_ % 10: continue
+                                f = "%" + fl + (str(w) if w else "") + "." + str(p) + cv
+                                script.append("Pd %s n n %s" % (fmt([ord(c) for c in f]), fmt(dbits(x)))); n += 1
+                                if n % 3000 == 0: script.append("R")
     # memory safety beyond the quantified precisions: large precisions and widths
     script.append("R")
     for x in (1e300, 1.7976931348623157e308, 5e-324, 1e-300, 0.1, 1.0 / 3, 123456789.123456789, float("inf"), float("nan")):
